@@ -7,7 +7,7 @@ PY = '/venv/bin/python'
 CHECKS = {
  'C18': dict(engine='contsim', level='exploration', ref='DESIGN.md §6 C18',
    technique='deterministic simulation: seeded operation histories with injected veto/raise faults, judged step by step against a list-without-duplicates reference model; ddmin-minimised replay',
-   text='Seeded search over operation histories (<=40 ops, 6-value universe) on qset, linqset and Predicates with vetoes injected at the containers\' own extension points; every operation is judged against a list-without-duplicates model (accepted => equal state; rejected single-element op => nothing changed; rejected bulk op => still a consistent ordered set). Sampling, not enumeration: a clean batch is evidence, not proof.',
+   text='Exhaustive enumeration of all operation histories of depth 3 (thorough 4) over a 46-50 operation alphabet per container, plus seeded search over operation histories (<=40 ops, 6-value universe) on qset, linqset and Predicates with vetoes injected at the containers\' own extension points; every operation is judged against a list-without-duplicates model (accepted => equal state; rejected single-element op => nothing changed; rejected bulk op => still a consistent ordered set). Beyond the enumerated depth it is sampling: a clean batch is evidence, not proof.',
    note='Trusts the list model in sim/contsim.py and CPython list semantics; Predicates cannot be subclassed (read-only metaclass) so only its own conflict veto is exercised.'),
 }
 
